@@ -22,9 +22,16 @@ CLAIMS = {
   "technique": "construction-site flow (who may create a Symbol cell) + dominance in the interning arms and in Heap::free",
   "text": "Decides that every VCell::Symbol constructed outside derived impls goes directly to Heap::put/maybe_put or is a builtin's Ok value, that both interning arms do lookup -> allocate -> insert, that Heap::free removes a freed symbol's name before overwriting the cell, and that eqv decides pointers by identity. Necessary for 'same name iff eq?'; string round trips beyond the escape-introducer clause are not decided."},
 }
+ "C11": {"design_ref": "DESIGN.md §2 C11",
+  "technique": "None-edge classification of every token-cursor read + scanner/parser table agreement (switch/str-compare table recovery)",
+  "text": "Decides the incompleteness clause and the table-agreement clauses: every handled end-of-tokens site in the parser yields parse::Error::Incomplete (ok_or / None arm), every next().unwrap() is dominated by a peek() with no intervening next(), the string/char scanners report only lex::Error::Incomplete, both front ends give Incomplete its own arm, the characters lex::scan sends to scan_simple_token and the number prefixes it produces are exactly those the handlers accept (their fall-through is panic!), and the remainder returned by parse_text starts at the next token's span.0. Scanner termination, token ordering and one-datum-per-parse are not decided."},
+ "C20": {"design_ref": "DESIGN.md §2 C20",
+  "technique": "parser/highlighter bracket-class agreement (arm tables) + slice-partition shape of highlight",
+  "text": "Decides that every token type the parser treats as an opener (its arm hands off to a sub-parser with a RightParen arm) is known to find_matching_bracket, and that highlight formats exactly [0..s0] + on + [s0..s1] + off + [s1..] of one token span with one escape pair. Necessary for 'exactly the matching bracket and nothing else'; that the partner is the properly nested one is value-level and not decided."},
+}
 NOT_APPLICABLE = {
  "C17": "Matcher/instantiator soundness and termination are properties of what two hand-written iterator state machines compute for every transformer and use; no structural clause is a faithful necessary condition without restating the algorithm (DESIGN.md §2 C17). transform.rs is still covered by C06 (panic sites) and C19 (recursion).",
 }
 # properties whose rule packs are designed (DESIGN.md §2) but not built yet; moved to CLAIMS as they land
 PENDING = {p: "rule pack designed in DESIGN.md §2 but not built yet in this revision; not claimed until it is" for p in
-           ["C01", "C02", "C06", "C08", "C09", "C10", "C11", "C14", "C15", "C16", "C19", "C20"]}
+           ["C01", "C02", "C06", "C08", "C09", "C10", "C14", "C15", "C16", "C19"]}
